@@ -36,9 +36,11 @@ func enginePanic(stderr string) bool {
 }
 
 func matchKnown(c Case, o outcome) string {
-	// C01-K1: timing mode + unified memory + plain multi-GPU: the first page
-	// migration crashes the command processor (its Driver port is never wired).
-	if c.Timing && c.UnifiedMemory && !c.Unified && len(c.GPUs) > 1 &&
+	// C01-K1: timing mode + unified memory + more than one GPU (always with a
+	// plain GPU set, with a unified device when a work-group touches a page that
+	// lives on another GPU): the first page migration crashes the command
+	// processor (its Driver port is never wired).
+	if c.Timing && c.UnifiedMemory && len(c.GPUs) > 1 &&
 		strings.Contains(o.stderr, "processRDMADrainRsp") && strings.Contains(o.stderr, "nil pointer dereference") {
 		return "C01-K1"
 	}
